@@ -135,7 +135,7 @@ Proof.
   revert i; induction s as [|c s IH]; intros i t; cbn [scan_ops]; [intros []|].
   assert (forall t, In t (scan_ops (S i) s) -> (i <= fst (fst t) /\ fst (fst t) < snd (fst t) <= i + length (c :: s))%nat) as R.
   { intros t' H. apply IH in H. cbn [length]. lia. }
-  assert (forall o1 o2, In t ((if match s with 61 :: _ => true | _ => false end then (i, (i + 2)%nat, o1) else (i, (i + 1)%nat, o2)) :: scan_ops (S i) s) ->
+  assert (forall o1 o2, In t ((if match s with 61 :: _ => true | _ => false end then (i, S (S i), o1) else (i, S i, o2)) :: scan_ops (S i) s) ->
      (i <= fst (fst t) /\ fst (fst t) < snd (fst t) <= i + length (c :: s))%nat) as Q.
   { intros o1 o2 [<-|H]; [|apply R; auto]. destruct s as [|x s']; cbn; [lia|].
     destruct x as [|px]; cbn; try lia.
@@ -147,7 +147,7 @@ Lemma scan_ops_sorted i s : forall a b r, scan_ops i s = a :: b :: r -> (snd (fs
 Proof.
   revert i; induction s as [|c s IH]; intros i a b r; cbn [scan_ops]; [discriminate|].
   set (ne := match s with 61 :: _ => true | _ => false end).
-  assert (forall o1 o2, (if ne then (i, (i + 2)%nat, o1) else (i, (i + 1)%nat, o2)) :: scan_ops (S i) s = a :: b :: r ->
+  assert (forall o1 o2, (if ne then (i, S (S i), o1) else (i, S i, o2)) :: scan_ops (S i) s = a :: b :: r ->
           (snd (fst a) <= fst (fst b))%nat) as Q.
   { intros o1 o2 [= <- E]. unfold ne. destruct s as [|x s'].
     - discriminate.
